@@ -159,7 +159,7 @@ func parseHeaders(h *protocol.ResponseHeader, buf []byte) (int, error) {
 					continue
 				}
 				if utils.CaseInsensitiveCompare(s.Key, bytestr.StrConnection) {
-					if bytes.Equal(s.Value, bytestr.StrClose) {
+					if utils.CaseInsensitiveCompare(s.Value, bytestr.StrClose) {
 						h.SetConnectionClose(true)
 					} else {
 						h.SetConnectionClose(false)
